@@ -314,8 +314,31 @@ def stage_region(case: Dict[str, Any]) -> Dict[str, str]:
                                                 for p in region.get_unique_protoclusters()])}
 
 
+def stage_ruleset(case: Dict[str, Any]) -> Dict[str, str]:
+    """the real shipped ruleset, restricted by the command-line options: the order in which the rules are
+    applied (which breaks ties between identical-coordinate protoclusters) must not depend on the hash seed"""
+    from antismash.config import build_config, destroy_config
+    from antismash.detection import hmm_detection
+    args: List[str] = ["--hmmdetection-strictness", case.get("strictness", "relaxed")]
+    if case.get("names"):
+        args += ["--hmmdetection-limit-to-rule-names", ",".join(case["names"])]
+    if case.get("categories"):
+        args += ["--hmmdetection-limit-to-rule-categories", ",".join(case["categories"])]
+    options = build_config(args, isolated=True, modules=[hmm_detection])
+    try:
+        problems = hmm_detection.check_options(options)
+        if problems:
+            return {"ruleset": json.dumps({"rejected": sorted(problems)})}
+        hmm_detection.get_ruleset.cache_clear() if hasattr(hmm_detection.get_ruleset, "cache_clear") else None
+        ruleset = hmm_detection.get_ruleset(options)
+        return {"ruleset": json.dumps([rule.name for rule in ruleset.rules]),
+                "rule_names": json.dumps(sorted(ruleset.get_rule_names()))}
+    finally:
+        destroy_config()
+
+
 STAGES = {"refine": stage_refine, "hmmer": stage_hmmer, "filter": stage_filter, "pipeline": stage_pipeline,
-          "region": stage_region}
+          "region": stage_region, "ruleset": stage_ruleset}
 
 
 def main() -> None:
